@@ -9,7 +9,9 @@ COQ_IMPORTS = ['Prims', 'CaseLib', 'BitsCore']
 RULE = ('every public callable of Bits, BitArray, ConstBitStream, BitStream, Array, Dtype and pack found by introspection (methods, operators, properties with setters) is called with argument tuples drawn '
         'from the documented types by parameter name (bitstrings incl. empty/self/malformed token strings, integers negative/zero/len/len+1/2^65, slices, position iterables, format strings valid and '
         'malformed, values at and beyond range limits), in sequences of 4..12 calls on one object, under msb0 and lsb0; every exception must be one of the documented types and afterwards every object must '
-        'be valid (immutables unchanged, len == len(bin), 0 <= pos <= len, options as left). non-trivial = a call that raises; distinct by (class, method, arguments)')
+        'be valid (immutables unchanged, len == len(bin), 0 <= pos <= len, options as left) - the receiver, the operands and every bitstring object (or Array) the call RETURNS, yields or holds in a list: each is probed '
+        '(len/bin/pos evaluable, repr, str, ==, slicing, copies, iteration, hash, peek(0)/read(0); fresh mutable results are also changed in place, which must not reach the receiver); a systematic pass over every '
+        'object-returning route (operators, slices, copies, constructors, join/cut/split/unpack/pack/pickle, stream reads, in-place operators) x four classes x both numberings; streams positioned at the end then one mutator. non-trivial = a call that raises; distinct by (class, method, arguments)')
 ASSUMPTIONS = ['documented exception types: ValueError (CreationError, InterpretError), IndexError (ReadError), TypeError, bitstring.Error (ByteAlignError), OSError, and EOFError for fromfile; '
                'sizes are kept feasible (no 2^65-bit allocations)']
 ALLOWED = {'ValueError', 'IndexError', 'ReadError', 'TypeError', 'BsError', 'ByteAlignError', 'Other:OSError', 'Other:FileNotFoundError', 'Other:EOFError', 'Other:UnsupportedOperation', 'StopIteration_gen'}
@@ -173,6 +175,69 @@ def gen_cases(rng, tier):
                'adtype': 'uint8', 'steps': [st, {'k': 'getprop', 'name': 'pos'}]}
     for _ in range(N // 4):
         yield {'op': 'dtypecall', 'token': gen_arg(rng, 'fmt', 8, 'a'), 'length': rng.choice([None, None, 0, 8, -1, 17, 4096]), 'scale': gen_arg(rng, 'scale', 8, 'a'), 'v': gen_arg(rng, 'value', 8, 'a')}
+    # a stream whose position stands at the end (or in the middle, or at the start: put there by the setter or by reading), then ONE mutator with an empty, short,
+    # long or self operand - bitstring-like values of every spelling - for an index, a slice or a position that is valid: the position must stay inside the data
+    VALS = [{'bits': ''}, {'str': ''}, {'bytes': []}, {'list': []}, {'bits': '1'}, {'bits': '0'}, {'str': '0b101'}, {'bits': '0' * 9}, {'self': 1}, {'list': [1, 0]}, 0, 1, True, False]
+    call = lambda name, *args, **kw: {'k': 'call', 'name': name, 'args': list(args), 'kwargs': kw}
+    WITH_VAL = ['setitem_int', 'setitem_slice', 'insert', 'overwrite', 'append', 'prepend', 'replace', 'replace1', 'iadd']
+    NO_VAL = ['delitem_int', 'delitem_slice', 'clear', 'imul', 'ilshift', 'reverse', 'invert', 'ror', 'byteswap', 'set', 'setprop']
+    for rnd in range(3 if tier == 'quick' else 30):
+        for tmpl, v in [(t, v) for t in WITH_VAL for v in VALS] + [(t, None) for t in NO_VAL for _ in range(4)]:
+            cls = rng.choice(['BitStream', 'BitStream', 'BitStream', 'BitArray'])
+            L = rng.choice([1, 2, 3, 8, 9, 16, 33])
+            p0 = rng.choice([L, L, L, L, L // 2, 0, L - 1])
+            key = rng.choice([0, -1, L - 1, L // 2, -L, rng.randrange(-L, L)])
+            a = rng.randrange(0, L + 1); sl = {'slice': [rng.choice([a, None, -1]), rng.choice([None, L, rng.randrange(a, L + 1)]), rng.choice([None, None, 1, -1, 2])]}
+            at = rng.choice([0, L, -1, L // 2])
+            mut = {'setitem_int': lambda: call('__setitem__', key, v), 'setitem_slice': lambda: call('__setitem__', sl, v), 'insert': lambda: call('insert', v, at), 'overwrite': lambda: call('overwrite', v, at),
+                   'append': lambda: call('append', v), 'prepend': lambda: call('prepend', v), 'replace': lambda: call('replace', rng.choice([{'bits': '1'}, {'bits': '0'}, {'bits': '10'}]), v),
+                   'replace1': lambda: call('replace', {'bits': '1'}, v, count=1), 'iadd': lambda: call('__iadd__', v), 'delitem_int': lambda: call('__delitem__', key), 'delitem_slice': lambda: call('__delitem__', sl),
+                   'clear': lambda: call('clear'), 'imul': lambda: call('__imul__', rng.choice([0, 1, 2])), 'ilshift': lambda: call('__ilshift__', rng.choice([0, 1, L])), 'reverse': lambda: call('reverse'),
+                   'invert': lambda: call('invert'), 'ror': lambda: call('ror', rng.choice([0, 1, L + 1])), 'byteswap': lambda: call('byteswap'), 'set': lambda: call('set', rng.choice([0, 1]), rng.choice([0, -1, L - 1])),
+                   'setprop': lambda: {'k': 'setprop', 'name': rng.choice(['bin', 'hex', 'uint', 'bytes', 'bool', 'int']), 'v': rng.choice([{'str': ''}, {'str': '1'}, {'str': '0f'}, 0, 1, True, {'bytes': []}, {'bytes': [7]}])}}[tmpl]()
+            if cls == 'BitStream':
+                reach = rng.choice([[{'k': 'setprop', 'name': 'pos', 'v': p0}], [{'k': 'setprop', 'name': 'bitpos', 'v': 0}, call('read', p0)], [{'k': 'setprop', 'name': 'pos', 'v': 0}, call('readlist', {'intlist': [p0]})],
+                                    [call('append', {'bits': ''})] if p0 == L else [{'k': 'setprop', 'name': 'pos', 'v': p0}]])
+                tail = [{'k': 'getprop', 'name': 'pos'}, call('read', rng.choice([0, 1])), call('peek', 1), call('bytealign')]
+            else: reach, tail = [], [call('__len__')]
+            yield {'op': 'program', 'cls': cls, 'bits': rand_bits(rng, L), 'lsb0': rng.random() < 0.3, 'pos': 0, 'adtype': 'uint8', 'steps': reach + [mut] + tail}
+    # every route that hands back a bitstring object, on every class, in both bit numberings: each object that comes back is probed like any other object of its class
+    yield from gen_derive(rng, tier)
+
+# expressions that return (or yield, or hold) bitstring objects. s: the receiver (class under test, some position), t: a short Bits, u: a Bits as long as s, w: a mutable copy of u.
+# {k} shift / read length, {a}:{b}:{st} slice, {m} small factor, {g} chunk size >= 1, {h} a length within s
+DERIVE_ALL = ['s << {k}', 's >> {k}', 's[{a}:{b}]', 's[{a}:{b}:{st}]', 's[::-1]', 's[:]', 's + t', 't + s', "'0b1' + s", "s + '0x3'", 's + []', '[1, 0] + s', 's * {m}', '{m} * s', 's & u', 's | u', 's ^ u',
+              'u & s', 'w | s', 'u ^ s', "s & ('0b' + u.bin)", '~s', 's.copy()', 'copy.copy(s)', 'copy.deepcopy(s)', 'type(s)(s)', 'type(s)(t)', 'type(s)(w)', "type(s)('0b1, 0xf')", 'type(s)({h})',
+              "type(s).fromstring('0b1, 0xf')", "type(s).fromstring('')", 'type(s)().join([s, t, s])', 's.join([t, w])', 's.join([])', 'list(s.cut({g}))', 'list(s.cut({g}, count={m}))', 'list(s.split(t[:1]))',
+              'list(s.split(t[:1], count={m}))', "s.unpack('bits:{h}, bits')", "s.unpack('bits')", "s.unpack(['bits:{h}', 'bin'])", 's.bits', "pack('bits', s)", "pack('bits, bits:{h}', s, s[:{h}])", 'Bits(s)', 'BitArray(s)',
+              'ConstBitStream(s)', 'BitStream(s)', 'ConstBitStream(s, pos={h})', 'BitStream(s, pos={h})', 'pickle.loads(pickle.dumps(s))', "Array('bits:4', s).data if len(s) % 4 == 0 else None",
+              "Array('uint:8', s.tobytes()).data", 'Dtype("bits", {h}).parse(s[:{h}])', 'Dtype("bits:{h}").build(s[:{h}])', 'list(s.findall(t[:1]))', 'iter(s.cut({g}))', 'next(s.cut({g}), None)',
+              's.__getitem__(slice({a}, {b}))', 's.__add__(t)', 's.__radd__(t)', 's.__mul__({m})', 's.__rmul__({m})', 's.__invert__()', 's.__lshift__({k})', 's.__rshift__({k})', 's.__and__(u)', 's.__rand__(u)',
+              's.__copy__()', 's << True', 's[{a}:{b}] << {k}', '(s + t) >> {k}', '(s << {k}) + (s >> {k})', '(~s)[{a}:{b}]', '(s * 2)[::-1]', 's.copy() << {k}']
+DERIVE_STREAM = ['s.read({k})', 's.peek({k})', "s.read('bits:{k}')", "s.peek('bits:{k}')", "s.read('bits')", "s.readlist('bits:{k}, bits')", 's.readlist([{k}, {m}])', "s.peeklist('bits:{k}, bits')", 's.readto(t[:1])',
+                 's.readto(t[:1], bytealigned=True)', 's.read(Dtype("bits", {k}))', 's.read({k}) << 1', 's.read({k}).read(1)', '(s << {k}).read({m})', '(s >> {k}).peek({m})', '(s + t).readlist([1, {m}])',
+                 's[{a}:{b}].read({m})', '(~s).bytealign()', 's.copy().read({m})', '(s & u).pos', '(s << {k}).pos', '(s * {m}).bytepos', 's[::-1].bitpos']
+DERIVE_MUTABLE = ['s.__iadd__(t)', 's.__imul__({m})', 's.__ilshift__({k})', 's.__irshift__({k})', 's.__iand__(u[:len(s)])', 's.__ior__(s)', 's.__ixor__(s)']
+
+def gen_derive(rng, tier):
+    quick = tier == 'quick'
+    lengths = [0, 1, 2, 7, 8, 9, 15, 16, 17, 31, 32, 33, 63, 64, 65, 128, 1000, 2001]
+    for cls in CLASSES:
+        for lsb0 in (False, True):
+            for L in (rng.sample(lengths[:12], 2) + [rng.choice(lengths)] if quick else lengths * 4):
+                exprs = list(DERIVE_ALL) + (DERIVE_STREAM if cls in ('ConstBitStream', 'BitStream') else []) + (DERIVE_MUTABLE if cls in MUTABLE else [])
+                if quick: exprs = rng.sample(exprs, 45)
+                else: rng.shuffle(exprs)
+                pos = rng.choice([0, 0, L // 2, L, rng.randrange(0, L + 1)])
+                out = []
+                for e in exprs:
+                    left = max(L - pos, 0)
+                    out.append(e.format(k=rng.choice([0, 0, 1, 2, 7, 8, max(L - 1, 0), L, L + 1, left, left + 1, 2 * L + 3]), a=rng.choice([0, 1, -1, L // 2, -L, L, -L - 1, rng.randrange(-L - 1, L + 2)]),
+                                        b=rng.choice([0, 1, -1, L // 2, L, L + 1, rng.randrange(-L - 1, L + 2)]), st=rng.choice([1, 2, -1, -2, 3, -7]), m=rng.choice([0, 1, 2, 3]),
+                                        g=rng.choice([1, 3, 8, max(L, 1), L + 1]), h=rng.choice([0, 1, L // 2, L, min(L, 8)])))
+                if cls in ('ConstBitStream', 'BitStream'):       # the position is put back now and then (the reads run it to the end)
+                    out = [x for i, e in enumerate(out) for x in ([f"setattr(s, 'pos', min({rng.choice([0, pos, pos, L // 2])}, len(s)))"] if i % 3 == 0 else []) + [e]]
+                yield {'op': 'derive', 'cls': cls, 'bits': rand_bits(rng, L), 'pos': pos, 'lsb0': lsb0, 't': rand_bits(rng, rng.choice([1, 3, 8, 9])), 'u': rand_bits(rng, L), 'exprs': out}
 
 def kind(c): return c['op'] + ':' + c.get('cls', '')
 
@@ -205,13 +270,102 @@ def snapshot(o):
             except Exception as e:
                 bad = f'{name}() raises {type(e).__name__}: {str(e)[:60]}'; break
         return ['Array', o.data.bin, len(o.data), None, bad]
-    return [type(o).__name__, o.bin, len(o), getattr(o, 'pos', None)]
+    # the position is read for what it is: getattr(o, 'pos', None) would turn the AttributeError of a stream that has lost its position into "no position"
+    pos = None
+    if isinstance(o, bitstring.ConstBitStream):
+        try: pos = o.pos
+        except Exception as e: pos = f'.pos raises {type(e).__name__}: {str(e)[:60]}'
+    return [type(o).__name__, o.bin, len(o), pos]
 
-def drain(v):
-    """force generators so that their errors surface; map results to something small"""
+def probe(x, mutate=False):
+    """Is the bitstring object x (returned by a call, passed to one, or the receiver) a valid object of its class? -> None, or what is wrong with it.
+    The validity predicates of the property (len == len(bin), 0 <= pos <= len) must be evaluable at all; every other ordinary use may raise documented exceptions only.
+    mutate: x is a fresh object of a mutable class nobody else refers to - it is also changed in place and probed again."""
+    import bitstring, copy
+    if isinstance(x, bitstring.Array):
+        for what, fn in (('len()', lambda: len(x)), ('tolist()', x.tolist), ('repr()', lambda: repr(x)), ('itemsize', lambda: x.itemsize), ('dtype', lambda: str(x.dtype)), ('trailing_bits', lambda: x.trailing_bits)):
+            try: fn()
+            except Exception as e: return f'Array: {what} raises {type(e).__name__}: {str(e)[:70]}'
+        return probe(x.data)
+    nm = type(x).__name__
+    bad = lambda what, e: f'{nm}: {what} raises {type(e).__name__}: {str(e)[:70]}'
+    try: n = len(x)
+    except Exception as e: return bad('len()', e)
+    try: b = x.bin if n <= 100000 else None
+    except Exception as e: return bad('.bin', e)
+    if b is not None and len(b) != n: return f'{nm}: len() = {n} but len(.bin) = {len(b)}'
+    stream = isinstance(x, bitstring.ConstBitStream)
+    p = None
+    if stream:
+        try: p = x.pos
+        except Exception as e: return bad('.pos', e)
+        if not (isinstance(p, int) and 0 <= p <= n): return f'{nm}: pos = {p!r} outside [0, {n}]'
+    uses = [('repr()', lambda: repr(x)), ('str()', lambda: str(x)), ('== itself', lambda: x == x), ('[:]', lambda: x[:]), ('copy.copy()', lambda: copy.copy(x)), ('.copy()', lambda: x.copy()),
+            ('tobytes()', lambda: x.tobytes()), ('bool()', lambda: bool(x)), ('iteration', lambda: [v for _, v in zip(range(3), x)])]
+    if n <= 100000: uses += [('+ itself', lambda: x + x), ('[::-1]', lambda: x[::-1])]
+    if stream: uses += [('peek(0)', lambda: x.peek(0)), ('read(0)', lambda: x.read(0)), ('.bitpos', lambda: x.bitpos), ('pos = pos', lambda: setattr(x, 'pos', p)), ('peeklist([])', lambda: x.peeklist([]))]
+    if type(x).__hash__ is not None: uses.append(('hash()', lambda: hash(x)))
+    for what, fn in uses:
+        try: fn()
+        except Exception as e:
+            if exn_name(e) not in ALLOWED: return bad(what, e)
+    if stream:
+        try: p2 = x.pos
+        except Exception as e: return bad('.pos (after peek / read(0))', e)
+        if p2 != p: return f'{nm}: peek(0) / read(0) / pos = pos moved the position from {p} to {p2}'
+    if mutate and isinstance(x, bitstring.BitArray) and n <= 100000:
+        for what, fn in (("append('0b1')", lambda: x.append('0b1')), ('invert()', lambda: x.invert()), ("prepend('0x0')", lambda: x.prepend('0x0')), ('del [0:2]', lambda: x.__delitem__(slice(0, 2)))):
+            try: fn()
+            except Exception as e:
+                if exn_name(e) not in ALLOWED: return bad(what, e)
+        m = probe(x)
+        if m: return m + ' (after it was changed in place)'
+    return None
+
+def collect(v, depth=0):
+    """the bitstring objects (and Arrays) found in a returned value; generators and iterators are run to their end (their errors surface), at most 40 objects are kept"""
+    import bitstring, types
+    if isinstance(v, (bitstring.Bits, bitstring.Array)): return [v]
+    if isinstance(v, (str, bytes, bytearray, int, float, bool)) or v is None or depth > 3: return []
+    if isinstance(v, dict): v = list(v.values())
+    if isinstance(v, (list, tuple)) or isinstance(v, types.GeneratorType) or hasattr(v, '__next__'):
+        out = []
+        for x in v:
+            if len(out) < 40: out += collect(x, depth + 1)
+        return out
+    return []
+
+def operands_after(pairs, receiver):
+    """pairs: (JSON description, materialised object) of the operands of a call. Bitstring operands must still be valid objects, the immutable ones unchanged"""
+    import bitstring
+    msgs = []
+    for desc, obj in pairs:
+        descs, objs = ([desc], [obj])
+        if isinstance(desc, dict) and 'seq' in desc and isinstance(obj, list): descs, objs = desc['seq'], obj
+        for d_, o_ in zip(descs, objs):
+            if not isinstance(o_, bitstring.Bits) or o_ is receiver: continue
+            m = probe(o_)
+            if m: msgs.append('an operand is not a valid object afterwards: ' + m)
+            exp = (d_.get('bits', d_.get('cbs')) if isinstance(d_, dict) else None)
+            if exp is not None and m is None and o_.bin != exp: msgs.append(f'the immutable operand {type(o_).__name__}(bin={exp[:40]!r}) was changed to {o_.bin[:40]!r}')
+    return msgs
+
+def probe_all(v, involved=()):
+    """probe every object in v; an object that is not one of `involved` (receiver, operands) and is mutable is also changed in place"""
+    msgs = []
+    for x in collect(v):
+        m = probe(x, mutate=not any(x is y for y in involved))
+        if m: msgs.append(m)
+    return msgs[:3]
+
+def drain(v, keep=None):
+    """force generators so that their errors surface; map results to something small. keep: a list that receives the value (generators: their items)"""
     import types
-    if isinstance(v, types.GeneratorType): return ['gen', len(list(v))]
-    if hasattr(v, '__next__'): return ['iter', len(list(v))]
+    if isinstance(v, types.GeneratorType) or hasattr(v, '__next__'):
+        items = list(v)
+        if keep is not None: keep.append(items[:40])
+        return ['gen' if isinstance(v, types.GeneratorType) else 'iter', len(items)]
+    if keep is not None: keep.append(v)
     return type(v).__name__
 
 def run_impl(c):
@@ -221,8 +375,12 @@ def run_impl(c):
     opts_before = (False, False, 'saturate')
     if op == 'constructor':
         def f():
-            o = cls_of(c['cls'])(*[mat(a, None) for a in c['args']], **{k: mat(v, None) for k, v in c['kwargs'].items()})
-            return snapshot(o)
+            args = [mat(a, None) for a in c['args']]; kwargs = {k: mat(v, None) for k, v in c['kwargs'].items()}
+            o = cls_of(c['cls'])(*args, **kwargs)
+            snap = snapshot(o)
+            msgs = [m for m in [probe(o, mutate=True)] if m]
+            msgs += operands_after(list(zip(c['args'], args)) + [(c['kwargs'][k], v) for k, v in kwargs.items()], None)
+            return snap + [True, msgs]
         return attempt(f)
     if op == 'packcall':
         fmt = mat(c['fmt'], None)
@@ -233,11 +391,12 @@ def run_impl(c):
             before = [v.bin if isinstance(v, Bits) else None for v in vals]
             r = pack(fmt, *vals)
             snap = snapshot(r)
+            msgs = [m for m in [probe(r)] if m] + operands_after(list(zip(c['vals'], vals)), None)
             if c.get('mutate_result'):
                 r.append('0b1'); r.invert(); r.prepend('0x0')
             after = [v.bin if isinstance(v, Bits) else None for v in vals]
             cache_ok = all(Bits(v['str']).bin == v['str'][2:] for v in c['vals'] if isinstance(v, dict) and 'str' in v and v['str'].startswith('0b'))
-            return snap + [before == after and cache_ok]
+            return snap + [before == after and cache_ok, msgs]
         return attempt(f)
     if op == 'crashprobe':
         import subprocess, sys as _sys
@@ -249,6 +408,36 @@ def run_impl(c):
             return ('ok', [pr.returncode, pr.stdout.strip().split('|') if pr.stdout.strip() else [], pr.stderr[-200:]])
         except subprocess.TimeoutExpired:
             return ('ok', [124, [], 'timeout'])
+    if op == 'derive':
+        import copy, pickle
+        from bitstring import ConstBitStream, BitStream
+        s = build(c['cls'], c['bits'], 'bin', c['pos'])
+        t = Bits(bin=c['t'])
+        bitstring.options.lsb0 = c['lsb0']
+        trace = []
+        for e in c['exprs']:
+            ub = ((c['u'] or '0') * (len(s) // max(len(c['u']), 1) + 1))[:len(s)]        # an operand as long as s is now
+            u = Bits(bin=ub); w = BitArray(bin=ub)
+            ns = {'s': s, 't': t, 'u': u, 'w': w, 'Bits': Bits, 'BitArray': BitArray, 'ConstBitStream': ConstBitStream, 'BitStream': BitStream, 'Array': Array, 'Dtype': Dtype, 'pack': pack,
+                  'copy': copy, 'pickle': pickle, 'bitstring': bitstring}
+            before = snapshot(s)
+            kept = []
+            r = attempt(lambda: drain(eval(e, ns), kept), 5)
+            mid = snapshot(s)
+            def g():
+                msgs = ['the receiver is not a valid object: ' + m for m in [probe(s)] if m]
+                msgs += ['an operand is not a valid object: ' + m for m in [probe(t), probe(u), probe(w)] if m]
+                if t.bin != c['t'] or u.bin != ub: msgs.append('an immutable operand was changed')
+                if r[0] == 'ok': msgs += ['the returned object is not a valid object: ' + m for m in probe_all(kept, [s, t, u, w])]
+                return msgs
+            pr = attempt(g, 10)
+            msgs = pr[1] if pr[0] == 'ok' else [f'probing the objects of the call raised {pr[1]}']
+            after = snapshot(s)
+            if after[:4] != mid[:4]: msgs.append(f'changing the returned object in place changed the receiver from {mid[1][:40]!r} to {after[1][:40]!r}')
+            o = bitstring.options
+            trace.append([before[1:], list(r) if r[0] == 'err' else ['ok', str(r[1])[:40]], mid[1:], [o.lsb0, o.bytealigned, o.mxfp_overflow], msgs[:3]])
+            bitstring.options.lsb0 = c['lsb0']; bitstring.options.bytealigned = False; bitstring.options.mxfp_overflow = 'saturate'
+        return ('ok', trace)
     if op == 'dtypecall':
         def f():
             kw = {} if c['scale'] is None else {'scale': c['scale']}
@@ -256,7 +445,9 @@ def run_impl(c):
             if not isinstance(tok, str): tok = 'uint:8'     # Dtype documents a token string (or a Dtype)
             d = Dtype(tok, c['length'], **kw) if c['length'] is not None else Dtype(tok, **kw)
             out = [str(d), repr(d), d.bitlength]
-            b = d.build(mat(c['v'], None)); out.append(len(b)); out.append(type(d.parse(b)).__name__)
+            b = d.build(mat(c['v'], None)); out.append(len(b))
+            v = d.parse(b); out.append(type(v).__name__)
+            out.append(probe_all([b, v], [b]))
             return out
         return attempt(f)
     bitstring.options.lsb0 = c['lsb0']
@@ -270,20 +461,37 @@ def run_impl(c):
     trace = []
     for st in c['steps']:
         before = snapshot(s)
+        kept, pairs = [], []            # what the call returned; (description, object) of every operand handed to it
         def f():
             if st['k'] == 'autoscale':
                 vals = [float(v) if isinstance(v, str) else v for v in st['vals']]
                 a2 = Array(Dtype(st['fmt'], scale='auto'), vals)
+                kept.append(a2)
                 return [repr(a2.dtype.scale)]
-            if st['k'] == 'getprop': return drain(getattr(s, st['name']))
-            if st['k'] == 'setprop': setattr(s, st['name'], mat(st['v'], s)); return None
+            if st['k'] == 'getprop': return drain(getattr(s, st['name']), kept)
+            if st['k'] == 'setprop':
+                v = mat(st['v'], s); pairs.append((st['v'], v))
+                setattr(s, st['name'], v); return None
             m = getattr(s, st['name'])
-            return drain(m(*[mat(a, s) for a in st['args']], **{k: mat(v, s) for k, v in st['kwargs'].items()}))
+            args = [mat(a, s) for a in st['args']]; kwargs = {k: mat(v, s) for k, v in st['kwargs'].items()}
+            pairs.extend(list(zip(st['args'], args)) + [(st['kwargs'][k], v) for k, v in kwargs.items()])
+            return drain(m(*args, **kwargs), kept)
         r = attempt(f, 5)
+        mid = snapshot(s)
+        # every object involved in the call is a valid object afterwards: the receiver, the operands (immutable ones unchanged) and whatever was RETURNED
+        def g():
+            involved = [s] + ([s.data] if isinstance(s, Array) else []) + collect([o_ for _, o_ in pairs])
+            msgs = ['the receiver is not a valid object: ' + m for m in [probe(s)] if m]
+            msgs += operands_after(pairs, s)
+            if r[0] == 'ok': msgs += ['the returned object is not a valid object: ' + m for m in probe_all(kept, involved)]
+            return msgs
+        pr = attempt(g, 10)
+        msgs = pr[1] if pr[0] == 'ok' else [f'probing the objects of the call raised {pr[1]}']
         after = snapshot(s)
+        if after[:4] != mid[:4]: msgs.append(f'changing the returned object in place (append / invert / prepend / del on a fresh object of a mutable class) changed the receiver from {mid[1][:40]!r} to {after[1][:40]!r}')
         o = bitstring.options
         opts = [o.lsb0, o.bytealigned, o.mxfp_overflow]
-        trace.append([before, list(r) if r[0] == 'err' else ['ok', str(r[1])[:40]], after, opts, frozen.bin == c['bits']])
+        trace.append([before, list(r) if r[0] == 'err' else ['ok', str(r[1])[:40]], mid, opts, frozen.bin == c['bits'], msgs[:3]])
         if opts != [lsb0, False, 'saturate']:
             bitstring.options.lsb0 = lsb0; bitstring.options.bytealigned = False; bitstring.options.mxfp_overflow = 'saturate'
     return ('ok', trace)
@@ -313,16 +521,22 @@ def oracle(c, obs):
         return None
     if op in ('constructor', 'packcall', 'dtypecall'):
         if bad_exc(obs, c): return f"{op} {dict((k, v) for k, v in c.items() if k != 'op')} raised {obs[1]}"
+        if obs[0] == 'ok' and isinstance(obs[1][-1], list) and obs[1][-1]: return f"{op} {str(dict((k, v) for k, v in c.items() if k != 'op'))[:300]}: {obs[1][-1][0]}"
+        if obs[0] == 'ok' and op != 'dtypecall' and isinstance(obs[1][3], str): return f"{op} {str(dict((k, v) for k, v in c.items() if k != 'op'))[:300]}: {obs[1][3]}"
         if obs[0] == 'ok' and op != 'dtypecall' and obs[1][2] != len(obs[1][1]): return f"{op}: len != len(bin)"
         if obs[0] == 'ok' and op == 'packcall' and len(obs[1]) > 4 and not obs[1][4]:
             return f"pack({c['fmt']}, {c['vals']}) (lsb0={c.get('lsb0')}) changed an immutable operand or the cached parse of a string operand (possibly once its result was mutated)"
         return None
-    for st, (before, r, after, opts, frozen_ok) in zip(c['steps'], obs[1]):
+    if op == 'derive': return oracle_derive(c, obs)
+    if obs[0] != 'ok': return f"the objects of the program {str(c)[:300]} could not be observed: {obs[1]}"
+    for st, (before, r, after, opts, frozen_ok, *more) in zip(c['steps'], obs[1]):
         where = f"{c['cls']}({before[1][:40]!r}, pos={before[3]}, lsb0={c['lsb0']}).{st.get('name', st['k'])}" + (f"({st.get('args')}, {st.get('kwargs')})" if st['k'] == 'call' else f" {st['k']} {st.get('v')}")
         if bad_exc(r, st): return f"{where} raised {r[1]}"
         if after[2] != len(after[1]): return f"{where}: len(s)={after[2]} but len(s.bin)={len(after[1])}"
         if len(after) > 4 and after[4]: return f"{where} left the Array unusable: {after[4]}"
+        if isinstance(after[3], str): return f"{where}: afterwards {after[3]}"
         if after[3] is not None and not 0 <= after[3] <= after[2]: return f"{where}: pos={after[3]} outside [0, {after[2]}]"
+        if more and more[0]: return f"{where} ({'raised ' + r[1] if r[0] == 'err' else 'returned ' + str(r[1])}): {more[0][0]}"
         if c['cls'] in ('Bits', 'ConstBitStream') and after[1] != before[1]: return f"{where} changed an immutable object: {before[1][:40]!r} -> {after[1][:40]!r}"
         if not frozen_ok: return f"{where} changed an unrelated immutable object"
         if opts != [c['lsb0'], False, 'saturate']: return f"{where} left the module options as {opts}"
@@ -330,13 +544,27 @@ def oracle(c, obs):
             return f"{where} raised {r[1]} and left the content changed"
     return None
 
+def oracle_derive(c, obs):
+    if obs[0] != 'ok': return f"the objects of the derivations {str(c)[:300]} could not be observed: {obs[1]}"
+    inplace = ('__iadd__', '__imul__', '__ilshift__', '__irshift__', '__iand__', '__ior__', '__ixor__')
+    for e, (before, r, after, opts, msgs) in zip(c['exprs'], obs[1]):
+        where = f"s = {c['cls']}({before[0][:40]!r}{'..' if len(before[0]) > 40 else ''}, {before[1]} bits, pos={before[2]}), t = Bits({c['t']!r}), lsb0={c['lsb0']}: {e}"
+        if bad_exc(r, None) and not (r[1] in ('OverflowError', 'Other:MemoryError')): return f"{where} raised {r[1]}"
+        if isinstance(after[2], str): return f"{where}: afterwards {after[2]}"
+        if after[1] != len(after[0]): return f"{where}: len(s)={after[1]} but len(s.bin)={len(after[0])}"
+        if after[2] is not None and not 0 <= after[2] <= after[1]: return f"{where}: pos={after[2]} outside [0, {after[1]}]"
+        if msgs: return f"{where} ({'raised ' + r[1] if r[0] == 'err' else 'returned ' + str(r[1])}): {msgs[0]}"
+        if (c['cls'] in ('Bits', 'ConstBitStream') or not any(x in e for x in inplace)) and after[0] != before[0]: return f"{where} changed the content of s: {before[0][:40]!r} -> {after[0][:40]!r}"
+        if opts != [c['lsb0'], False, 'saturate']: return f"{where} left the module options as {opts}"
+    return None
+
 def nontrivial(c, obs):
-    return obs[0] == 'err' or (c['op'] == 'program' and any(t[1][0] == 'err' for t in obs[1]))
+    return obs[0] == 'err' or (c['op'] in ('program', 'derive') and any(t[1][0] == 'err' for t in obs[1]))
 def classify(c, obs): return None
 def coq_check(c, obs): return None
 
 def evals(cases, observed):
-    return sum(len(o[1]) if c['op'] == 'program' and o[0] == 'ok' else 1 for c, o in zip(cases, observed))
+    return sum(len(o[1]) if c['op'] in ('program', 'derive') and o[0] == 'ok' else 1 for c, o in zip(cases, observed))
 
 def search(seeds, rng):
     for c in list(seeds) + list(gen_cases(rng, 'quick')):
